@@ -14,6 +14,8 @@ use text_utils::text::match_words;
 const WORDS: [&str; 6] = ["x", "X", "y", "xy", "Y", "zz"];
 /// the same shape with non-ASCII letters (case pairs outside ASCII, a letter whose upper case is two letters)
 const WORDS_UNI: [&str; 6] = ["ü", "Ü", "ж", "üж", "Ж", "ßß"];
+/// case pairs whose lower case has another UTF-8 length: U+023A (2 bytes) / U+2C65 (3 bytes), Kelvin sign (3 bytes) / k (1 byte)
+const WORDS_UNI2: [&str; 6] = ["\u{2C65}", "\u{023A}", "k", "\u{2C65}k", "\u{212A}", "ßß"];
 const SEPS: [&str; 4] = [" ", "\t", "\n", "  "];
 
 struct WInt {
@@ -44,7 +46,7 @@ fn text_from(case: &Value, key: &str, sep: usize) -> String {
         return s.to_string();
     }
     let slots_key = format!("{key}slots");
-    let ws: Vec<&str> = case[slots_key.as_str()].as_array().unwrap().iter().map(|x| if get_str(case, "walpha") == "uni" { WORDS_UNI } else { WORDS }[x.as_u64().unwrap() as usize - 1]).collect();
+    let ws: Vec<&str> = case[slots_key.as_str()].as_array().unwrap().iter().map(|x| match get_str(case, "walpha") { "uni" => WORDS_UNI, "uni2" => WORDS_UNI2, _ => WORDS }[x.as_u64().unwrap() as usize - 1]).collect();
     ws.join(SEPS[sep % SEPS.len()])
 }
 
@@ -72,9 +74,17 @@ pub fn exec_match(case: &Value) -> Vec<Value> {
 pub fn gen_match(seed: u64, n: usize) -> Vec<Value> {
     let mut rng = ChaCha8Rng::seed_from_u64(seed);
     (0..n)
-        .map(|_| {
+        .map(|i| {
             // words may contain whitespace that is not ASCII (match_words splits on ASCII whitespace only)
-            let pool = ["the", "The", "a", "A", "cat", "CAT", "dog", "x", "", "é", "É", "über", "Über", "ÜBER", "ж", "Ж", "10\u{a0}km", "a\u{3000}b", "x\u{2028}"];
+            let pool = ["the", "The", "a", "A", "cat", "CAT", "dog", "x", "", "é", "É", "über", "Über", "ÜBER", "ж", "Ж", "10\u{a0}km", "a\u{3000}b", "x\u{2028}",
+                        "\u{212A}m", "km", "\u{023A}", "\u{2C65}", "STRA\u{1E9E}E", "straße"];
+            // one pair per run has more distinct words than 16 bits can number (the other text is tiny: the table stays small)
+            if i == 7 {
+                let n = 65537 + rng.random_range(0..40usize);
+                let a: Vec<String> = (0..n).map(|k| format!("w{k}")).collect();
+                let b = if rng.random_bool(0.5) { format!("w{} w0", n - 1) } else { format!("w0 w{} w65535", n - 1) };
+                return json!({"a": a.join(" "), "b": b, "fold": rng.random_bool(0.5)});
+            }
             // one pair in sixty is long (more than a hundred words) with a displaced block: a word far from the diagonal
             if rng.random_bool(1.0 / 150.0) {
                 // both blocks end up more than 64 positions away from the diagonal
@@ -239,10 +249,10 @@ pub fn exec_metrics(case: &Value) -> Vec<Value> {
 
 pub fn gen_metrics(seed: u64, n: usize) -> Vec<Value> {
     let mut rng = ChaCha8Rng::seed_from_u64(seed);
-    let betas = [(1u64, 2u64), (1, 1), (2, 1)];
+    let betas = [(1u64, 2u64), (1, 1), (2, 1), (0, 1)];
     (0..n)
         .map(|i| {
-            let (bn, bd) = betas[rng.random_range(0..3)];
+            let (bn, bd) = betas[rng.random_range(0..4)];
             match i % 4 {
                 0 | 1 => {
                     // spelling: word sequences with deleted / added / merged / split / changed words
